@@ -210,3 +210,11 @@ func randTopic(rng *rand.Rand) []byte {
 	}
 	return []byte(s)
 }
+
+func atoi64(s string) int64 {
+	v, err := strconv.ParseInt(s, 10, 64)
+	if err != nil {
+		panic("bad int64 " + s)
+	}
+	return v
+}
